@@ -22,7 +22,7 @@ Lemma UDP_spec v : wf v -> bytes_ok (arr v) -> UDP_IsValid v = Ok true -> getter
 Proof.
   intros W B H. apply UDP_valid_len in H. unfold wf in W. pose proof (view_length v W) as L.
   unfold getters_spec, UDP_getters, UDP_specs.
-  repeat (apply Forall2_cons; [cbn [fst snd]; split; [reflexivity|] | ]); [ .. | apply Forall2_nil].
+  each_spec.
   all: try c02_fixed B L.
 Qed.
 
@@ -49,7 +49,7 @@ Lemma TCP_spec v : wf v -> bytes_ok (arr v) -> TCP_IsValid v = Ok true -> getter
 Proof.
   intros W B H. apply TCP_valid_len in H. unfold wf in W. pose proof (view_length v W) as L.
   unfold getters_spec, TCP_getters, TCP_specs.
-  repeat (apply Forall2_cons; [cbn [fst snd]; split; [reflexivity|] | ]); [ .. | apply Forall2_nil].
+  each_spec.
   all: try (c02_fixed B L; by_sweep).
   - intros K. simp_known K. unfold bt in K.
     unfold_getter; slices. unfold tcp_hlen. norm_bits. view_fields L. pow_lits. byte_bounds B. strip.
@@ -82,7 +82,7 @@ Lemma ARP_spec v : wf v -> bytes_ok (arr v) -> ARP_IsValid v = Ok true -> getter
 Proof.
   intros W B H. apply ARP_valid_len in H. unfold wf in W. pose proof (view_length v W) as L.
   unfold getters_spec, ARP_getters, ARP_specs.
-  repeat (apply Forall2_cons; [cbn [fst snd]; split; [reflexivity|] | ]); [ .. | apply Forall2_nil].
+  each_spec.
   all: c02_fixed B L.
 Qed.
 
@@ -135,7 +135,7 @@ Proof.
   intros W B H. destruct (IP4_valid_facts v W H) as (H20 & HI & HT). unfold wf in W. unfold lenN in *.
   pose proof (view_length v W) as L.
   unfold getters_spec, IP4_getters, IP4_specs.
-  repeat (apply Forall2_cons; [cbn [fst snd]; split; [reflexivity|] | ]); [ .. | apply Forall2_nil].
+  each_spec.
   10: { (* Payload, outside TotalLen < IHL *)
     intros K. simp_known K. unfold w16, bt in K. simpl Nat.add in K.
     unfold_getter. slices. unfold rsl, ip4_ihl, ip4_totallen. norm_bits. view_fields L. pow_lits.
@@ -226,7 +226,7 @@ Proof.
   assert (ET : ether_type (view v) = nth 12 (arr v) 0 * 256 + nth 13 (arr v) 0).
   { unfold ether_type. norm_bits. view_fields L. pow_lits. byte_bounds B. simpl Nat.add. lia. }
   unfold getters_spec, Ether_getters, Ether_specs.
-  repeat (apply Forall2_cons; [cbn [fst snd]; split; [reflexivity|] | ]); [ .. | apply Forall2_nil].
+  each_spec.
   all: try (c02_fixed B L; fail).
   - (* DstIP *)
     intros K. simp_known K. unfold w16, bt in K. simpl Nat.add in K.
@@ -275,25 +275,6 @@ Proof.
       rewrite sub_view by lia. unfold sub. rewrite skipn_skipn'. reflexivity.
     + reflexivity.
 Qed.
-
-(* ================================================================= *)
-(* results depend only on the bytes within the length *)
-
-Lemma UDP_len_only v v' : wf v -> wf v' -> bytes_ok (arr v) -> bytes_ok (arr v') ->
-  UDP_IsValid v = Ok true -> UDP_IsValid v' = Ok true -> view v = view v' -> getters_len_only [] UDP_getters v v'.
-Proof. intros. eapply len_only_of_spec; eauto using UDP_spec. Qed.
-Lemma TCP_len_only v v' : wf v -> wf v' -> bytes_ok (arr v) -> bytes_ok (arr v') ->
-  TCP_IsValid v = Ok true -> TCP_IsValid v' = Ok true -> view v = view v' -> getters_len_only TCP_findings_C02 TCP_getters v v'.
-Proof. intros. eapply len_only_of_spec; eauto using TCP_spec. Qed.
-Lemma ARP_len_only v v' : wf v -> wf v' -> bytes_ok (arr v) -> bytes_ok (arr v') ->
-  ARP_IsValid v = Ok true -> ARP_IsValid v' = Ok true -> view v = view v' -> getters_len_only [] ARP_getters v v'.
-Proof. intros. eapply len_only_of_spec; eauto using ARP_spec. Qed.
-Lemma IP4_len_only v v' : wf v -> wf v' -> bytes_ok (arr v) -> bytes_ok (arr v') ->
-  IP4_IsValid v = Ok true -> IP4_IsValid v' = Ok true -> view v = view v' -> getters_len_only IP4_findings_C02 IP4_getters v v'.
-Proof. intros. eapply len_only_of_spec; eauto using IP4_spec. Qed.
-Lemma Ether_len_only v v' : wf v -> wf v' -> bytes_ok (arr v) -> bytes_ok (arr v') ->
-  Ether_IsValid v = Ok true -> Ether_IsValid v' = Ok true -> view v = view v' -> getters_len_only Ether_findings Ether_getters v v'.
-Proof. intros. eapply len_only_of_spec; eauto using Ether_spec. Qed.
 
 (* ================================================================= *)
 (* refutation witnesses (each is replayed on the real code by the harness) and non-vacuity *)
